@@ -39,7 +39,7 @@ for p in pkgs:
     if p.startswith("etcd/"):
         mod = "/".join(p.split("/")[:2])
         rel = "./" + "/".join(p.split("/")[2:]) if len(p.split("/")) > 2 else "."
-        rc, out = sh("go test -count=1 -timeout 800s %s 2>&1 | tail -5" % rel, cwd=os.path.join(wt, mod), timeout=1000)
+        rc, out = sh("go test -count=1 -timeout 800s -skip 'ZZ|Zz|zz|Demo' %s 2>&1 | tail -5" % rel, cwd=os.path.join(wt, mod), timeout=1000)
     else:
         skip = "-skip 'ZZ|Zz|zz|Demo'"
         rc, out = sh("go test -count=1 %s ./%s 2>&1 | tail -8" % (skip, p))
